@@ -54,7 +54,9 @@ def gen(rng, tier, i):
     d = sc.add_direct("direct")
     sc.rule("direct")
     pattern = rng.choice(["silent", "trickle-c2s", "trickle-s2c", "burst", "alternate"])
-    if not is_udp and kind in ("http", "socks5", "socks4", "reverse", "tproxy") and T in (1, 2, 5) and rng.random() < 0.3:
+    if not is_udp and rng.random() < 0.12:
+        pattern = "half-closed"   # the client ends its direction, the origin keeps its own open and says nothing more
+    elif not is_udp and kind in ("http", "socks5", "socks4", "reverse", "tproxy") and T in (1, 2, 5) and rng.random() < 0.3:
         # a receiver that drains slowly but steadily (2 KiB every 250 ms) behind small socket buffers: the tunnel carries data
         # all the time, although one relay chunk takes longer than the idle period to get through
         pattern = "slow-drain"
@@ -108,6 +110,13 @@ def gen(rng, tier, i):
             trickle(cw, orr, rounds)
         elif pattern == "trickle-s2c":
             trickle(ow, cr, rounds)
+        elif pattern == "half-closed":
+            # a half-closed tunnel is still a tunnel: it idles out like any other, counted from its last byte
+            cw += [send(b"h"), op("shutdown")]
+            orr += [op("recv_n", n=1, timeout_ms=60000, label="data"), op("recv_eof", timeout_ms=60000, label="half-eof")]
+            if rng.random() < 0.5:
+                ow += [op("sleep", ms=period_ms), send(b"s")]
+                cr.append(op("recv_n", n=1, timeout_ms=horizon_ms + 2 * period_ms, label="data"))
         elif pattern == "slow-drain":
             L = 8192 * (2 * T + 10)
             cw.append(op("send", fill=[7, L], timeout_ms=600000, on_fail="continue"))
